@@ -839,7 +839,7 @@ int main(int argc, char** argv) {
   for (int i = 1; i < argc; ++i)
     if (std::string(argv[i]) == "--asan-subset") asanSubset = true;
   if (thorough && !asanSubset) {
-    TIER.nRay = 5;
+    TIER.nRay = 6;
     TIER.nWind = 11;
     TIER.nSlice = 24;
     TIER.nProj = 32;
@@ -888,7 +888,7 @@ int main(int argc, char** argv) {
     // the deepest interior lattice point of a host member, so that (tiny, host) is a containment without crossing surfaces.
     static const double PLC[8][3] = {{0, 0, 0},        {1.7, 0.3, -0.2}, {0, 0, 0},        {-0.4, 2.1, 0.9},
                                      {0.6, -0.5, 2.9}, {-3.3, 0.2, 0.4}, {0.9, 5.2, -1.1}, {7, 8, 9}};
-    const int want = asanSubset ? 16 : (thorough ? 96 : 48);
+    const int want = asanSubset ? 16 : (thorough ? 144 : 48);
     const int nTiny = want / 8, nReg = want - nTiny;
     std::vector<int> cand;
     for (int i = 0; i < (int)np; ++i)
